@@ -9,6 +9,7 @@ C09 driver: one verdict per trace line (see harness/wb/sdk/trace/zz_verif_c09_*_
   env   <gen> <x<name>|-> <hasArg> <err|f<bits>> <nanconv> => <sampler struct|-> <errclass>
 -/
 import Otel.C09.Spec
+import Otel.C09.Desc
 open Otel Otel.Wire Otel.C09
 
 namespace Otel.C09.Drv
@@ -151,6 +152,33 @@ def errName : EnvErr → String
 def parseErr (s : String) : Option EnvErr :=
   [EnvErr.ok, .unsupported, .parse, .negative, .gt1].find? (fun e => errName e == s)
 
+/-- `desc` line: prefix encoding of a stock sampler: `A` · `N` · `R <ftok> <hex %g text>` · `P` + five sub-expressions -/
+def parseDS : Nat → List String → Option (DS × List String)
+  | 0, _ => none
+  | _, [] => none
+  | fuel + 1, t :: rest =>
+    if t == "A" then some (.always, rest)
+    else if t == "N" then some (.never, rest)
+    else if t == "R" then
+      match rest with
+      | f :: g :: rest' => do
+        let bits ← parseF f
+        let gb ← parseHex g
+        pure (ratioDS bits (gb.map fun b => Char.ofNat b.toNat), rest')
+      | _ => none
+    else if t == "P" then do
+      let (a, r1) ← parseDS fuel rest
+      let (b, r2) ← parseDS fuel r1
+      let (c, r3) ← parseDS fuel r2
+      let (d, r4) ← parseDS fuel r3
+      let (e, r5) ← parseDS fuel r4
+      pure (.pb a b c d e, r5)
+    else none
+
+def dsDepth : DS → Nat
+  | .pb a b c d e => 1 + max (dsDepth a) (max (dsDepth b) (max (dsDepth c) (max (dsDepth d) (dsDepth e))))
+  | _ => 0
+
 def stepLine (_ : Unit) (toks : List String) : Unit × Option Verdict :=
   let (inp, obs) := splitObs toks
   let r : Option Verdict :=
@@ -219,6 +247,16 @@ def stepLine (_ : Unit) (toks : List String) : Unit × Option Verdict :=
       -- observation only: no duplicate span id, no zero id among the generated ones
       let good := d == 0 && z == 0
       pure { agree := good, spec := if good then "ok" else "FAIL", nontrivial := true, branches := "uniq", model := "0 0" }
+    | ["uniq2", _, np, ng, per] => do
+      let _ ← parseNat np; let _ ← parseNat ng; let _ ← parseNat per
+      let (d, z, p) ← match obs with
+        | [d, z, p] => do pure ((← parseNat d), (← parseNat z), (← parseBool p))
+        | _ => none
+      -- observation only: through the API, several providers x goroutines: no duplicate span id, every context valid,
+      -- children keep the trace id; and the SDK does NOT de-duplicate: a custom generator's repeated id comes through
+      let good := d == 0 && z == 0 && p
+      pure { agree := good, spec := if good then "ok" else "FAIL", nontrivial := true, branches := "uniq-api,repeat-passthrough",
+             model := "0 0 1" }
     | ["env", _, name, ha, pf, nanc] => do
       let nm ← if name == "-" then some none else (parseHex name).map some
       let h ← parseBool ha
@@ -296,6 +334,17 @@ def stepLine (_ : Unit) (toks : List String) : Unit × Option Verdict :=
                          (if k == 0 || k > 5 then ",kind-invalid" else ",kind-valid") ++ (if n > 0 then ",links" else "") ++
                          (if sa.isEmpty then "" else ",sampler-attrs"),
              model := "=" }
+    | "desc" :: _ :: toks => do
+      let (d, rest) ← parseDS 64 toks
+      if !rest.isEmpty then none
+      let o ← match obs with | [x] => parseHex x | _ => none
+      let want := (describe d).map fun c => UInt8.ofNat c.toNat
+      let ok := o == want
+      let hasRatio := toks.contains "R"
+      pure { agree := ok, spec := if ok && d.wf then "ok" else "FAIL", nontrivial := dsDepth d ≥ 1 || hasRatio,
+             branches := s!"depth{dsDepth d}" ++ (if hasRatio then ",ratio" else "") ++
+               (match d with | .pb _ a b c e => (if a != .always || b != .never || c != .always || e != .never then ",options" else ",defaults") | _ => ""),
+             model := hexOf want }
     | _ => none
   ((), r)
 
